@@ -262,7 +262,10 @@ class Gram:
         for i, root in enumerate(self.rules):
             d = self.disp[i] if i < len(self.disp) else ""
             out.append("%s%s <- %s\n" % (self.rname(i + 1), (' "%s"' % d) if d else "", self.render(root, -1)))
-        if getattr(self, "oneline", False):       # all rules of the group on ONE source line, separated by semicolons
+        ol = getattr(self, "oneline", None)
+        if ol is None:
+            ol = self.gi % 7 == 3                   # every seventh group of every family, unless a check decides itself
+        if ol:                                      # all rules of the group on ONE source line, separated by semicolons
             return " ; ".join(x.rstrip("\n") for x in out) + "\n"
         return "".join(out)
 
